@@ -590,7 +590,7 @@ pub fn step_adm(sim: &mut Sim, ctx: &mut Ctx, adm: &AdmSwarm) -> Option<Tx> {
             }
             let (ui, ma) = *ctx.rng.pick(&us);
             let u = ctx.world.users[ui].clone();
-            match ctx.rng.below(4) {
+            match ctx.rng.below(6) {
                 0 => {
                     let new = ctx.rng.pubkey();
                     let new_auth = if ctx.rng.chance(1, 2) { u.authority } else { ctx.world.users[ctx.rng.below(ctx.world.users.len() as u64) as usize].authority };
@@ -612,9 +612,47 @@ pub fn step_adm(sim: &mut Sim, ctx: &mut Ctx, adm: &AdmSwarm) -> Option<Tx> {
                 }
                 1 => Tx::one("user", ix::account_close(ma, u.authority, ctx.world.payer)),
                 2 => {
-                    // group admin operating a (possibly frozen) account
-                    let ta = *u.tokens.get(&b.keys.mint)?;
-                    Tx::one("group_admin", ix::deposit(&b.keys, ma, g.admins.admin, ta, 1, None))
+                    // group admin operating a (possibly frozen) account: freeze it first half of
+                    // the time, then withdraw a little to a destination of the admin's choosing
+                    let acc = model::account_of(&sim.store, &ma)?;
+                    if acc.account_flags & ACCOUNT_FROZEN == 0 && ctx.rng.chance(1, 2) {
+                        sim.apply(Event::Tx(Tx::one("group_admin", ix::set_freeze(g.key, ma, g.admins.admin, true))));
+                    }
+                    let bals: Vec<Balance> = active_balances(&acc).into_iter().filter(|x| i80(x.asset_shares) >= I80F48::ONE).collect();
+                    if bals.is_empty() {
+                        return None;
+                    }
+                    let bal = ctx.rng.pick(&bals).clone();
+                    let bi = ctx.world.bank_info(&bal.bank_pk)?.clone();
+                    let dst = *ctx.world.stranger_tokens.get(&bi.keys.mint)?;
+                    let rm = crate::world::risk_metas(&sim.store, &ma, None, None);
+                    Tx::one("group_admin", ix::withdraw(&bi.keys, ma, g.admins.admin, dst, 1, None, rm))
+                }
+                4 => {
+                    // PDA-addressed account for a user
+                    let index = ctx.rng.below(4) as u16;
+                    let third = match ctx.rng.below(4) { 0 => None, 1 => Some(7u16), 2 => Some(10_001), _ => Some(0) };
+                    let new = ix::account_pda(&g.key, &u.authority, index, third);
+                    let t = ix::account_initialize_pda(g.key, new, u.authority, ctx.world.payer, index, third);
+                    let out = sim.apply(Event::Tx(Tx::one("user", t)));
+                    if out.map(|o| o.ok()).unwrap_or(false) {
+                        ctx.world.users[ui].maccounts.push((gi, new));
+                    }
+                    return None;
+                }
+                5 => {
+                    // transfer into a PDA-addressed account
+                    let index = ctx.rng.range(4, 9) as u16;
+                    let new_auth = ctx.world.users[ctx.rng.below(ctx.world.users.len() as u64) as usize].authority;
+                    let new = ix::account_pda(&g.key, &new_auth, index, None);
+                    let t = ix::transfer_to_new_account_pda(g.key, ma, new, u.authority, ctx.world.payer, new_auth, ctx.world.fee_wallet, index, None);
+                    let out = sim.apply(Event::Tx(Tx::one("user", t)));
+                    if out.map(|o| o.ok()).unwrap_or(false) {
+                        if let Some(owner) = ctx.world.users.iter_mut().find(|x| x.authority == new_auth) {
+                            owner.maccounts.push((gi, new));
+                        }
+                    }
+                    return None;
                 }
                 _ => {
                     // fresh account for a user
